@@ -180,10 +180,15 @@ func ReadResponse(r *bufio.Reader) (*Response, error) {
 
 	// 读取Body
 	cl := resp.Header.Int(FieldContentLength)
+	if cl > maxContentLength { // 拒绝不合理的长度，避免按对端声明的长度预先分配内存
+		return nil, &badStringError{"Content-Length too large", resp.Header.get(FieldContentLength)}
+	}
 	if cl > 0 {
 		// 读取 n 字节的字串Body
 		body := make([]byte, cl)
-		_, err = io.ReadFull(r, body)
+		if _, err = io.ReadFull(r, body); err != nil {
+			return nil, err // Body 不完整
+		}
 		resp.Body = string(body)
 	}
 	return resp, nil
